@@ -457,13 +457,13 @@ EXPECTED_PROBES = {
     "C01": ["cancel-during-send", "concurrent-reregistration", "history.failed-reregistration", "history.wide-event-type", "send.event-as-payload", "concurrent-removal"],
     "C02": ["cancel-during-send", "history.wide-event-type"],
     "C03": ["cancel-during-send", "node.stalled", "node.nested-send", "node.nested-send-same-type", "send.foreign-context-type", "send.channel-sink-without-consumer"],
-    "C08": ["fs.external-rename", "fs.crashed", "fs.rotated", "fs.huge-event"],
+    "C08": ["fs.external-rename", "fs.crashed", "fs.rotated", "fs.huge-event", "fs.unremovable-oldest", "fs.resent-after-error"],
     "C06": ["enum.exhausted"],
     "C11": ["gate.expired-group", "gate.flushall-many-groups", "enum.exhausted", "gate.broker-field-changed", "gate.backlog-flush-run"],
-    "C12": ["reentry.process", "reentry.close", "reentry.reopen", "reentry.send-cancelled", "reentry.file-pipeline"],
+    "C12": ["reentry.process", "reentry.close", "reentry.reopen", "reentry.send-cancelled", "reentry.file-pipeline", "reentry.wide-type"],
     "C13": ["channel.room-fast-path", "channel.error", "fs.retry-after-failed-write", "writer.panicked"],
     "C14": ["json.unencodable", "json.context-done", "json.marshaler-touched-format-table"],
-    "C15": ["fs.model-rotation", "fs.external-rename", "fs.directory-removed-silently"],
+    "C15": ["fs.model-rotation", "fs.external-rename", "fs.directory-removed-silently", "fs.future-stamped-leftovers"],
     "C16": ["encrypt.rotated", "encrypt.recurring-event-id", "encrypt.rekeyed-in-place"],
     "C17": ["gate.expired-group", "gate.flushall-many-groups", "enum.exhausted", "gate.broker-field-changed", "gate.backlog-run", "gate.reopened", "gate.clock-stepped-back", "gate.clock-replaced"],
     "C18": ["ce.signer-failed", "ce.signed", "ce.signer-panicked", "ce.reconfigured", "ce.second-rendering-failed"],
